@@ -46,6 +46,20 @@ CHECKS = {
              "and invalid arguments, unresolvable link/include); for every transition that raises, all attributes "
              "and child lists (by identity) of every pooled object must be unchanged.",
         design="DESIGN.md 2.4, C06"),
+    "C07": dict(
+        engine="fault",
+        category="fault_enumeration",
+        technique="exhaustive enumeration of failure causes: document invalidity kinds x natural serialisation failures x one "
+                  "injected exception per serialisation call site (first / last call) x formats x entry points x target states",
+        text="The complete product of 3 documents x 12 ways of being invalid (missing/empty Section type at two depths, duplicate "
+             "ids among siblings, with the Document, across branches, duplicate sibling names) x 6 natural serialisation failures "
+             "(text XML cannot hold in value/attribute/name, objects json cannot encode at three levels) and 10 injected call "
+             "sites x {XML plain/local_style/custom_template, JSON, YAML, RDF x 11 sub-formats + an unsupported one} x "
+             "{odml.save, ODMLWriter.write_file, XMLWriter.write_file, RDFWriter.write_file} x target {absent, present, without "
+             "extension} is executed in a scratch directory whose names and bytes are compared before and after: invalid => "
+             "ParserException; any raise => nothing created, changed or removed; otherwise exactly one file written that loads "
+             "back equal, warnings reported.",
+        design="DESIGN.md 2.7, C07"),
     "C08": dict(
         engine="input",
         category="model_checking",
